@@ -41,20 +41,38 @@ Proof.
 Qed.
 
 (* ---------------------------------------------------------------- resolution facts *)
-Lemma resolve_in_find : forall fs d p f, resolve_in fs d p = Some f -> exists m, find_file fs f = Some m.
+Lemma try_path_find : forall fs r c f, try_path fs r c = RFound f -> exists m, find_file fs f = Some m.
+Proof.
+  unfold try_path; intros fs r c f. destruct (find_file fs c) eqn:E; [| discriminate].
+  destruct (is_prefix r c); [| discriminate]. intro H; inversion H; subst; eauto.
+Qed.
+
+Lemma resolve_in_find : forall fs d p f, resolve_in fs d p = RFound f -> exists m, find_file fs f = Some m.
 Proof.
   unfold resolve_in; intros fs d p f.
-  destruct (find_file fs (d ++ p)) eqn:E1.
-  - intro H; inversion H; subst; eauto.
-  - destruct (find_file fs (d ++ p ++ [MODSEG])) eqn:E2; intro H; inversion H; subst; eauto.
+  destruct (try_path fs d (canon fs (d ++ p))) eqn:E1; try discriminate.
+  - intro H; inversion H; subst. eapply try_path_find; eauto.
+  - apply try_path_find.
+Qed.
+
+Lemma search_find : forall fs r b p f, search fs r b p = Some f -> exists m, find_file fs f = Some m.
+Proof.
+  unfold search; intros fs r b p f.
+  destruct (resolve_in fs b p) eqn:E1.
+  - intro H; inversion H; subst. eapply resolve_in_find; eauto.
+  - destruct (key_eqb b r); [discriminate|]. destruct (resolve_in fs r p) eqn:E2; try discriminate.
+    intro H; inversion H; subst. eapply resolve_in_find; eauto.
+  - destruct (key_eqb b r); [discriminate|]. destruct (resolve_in fs r p) eqn:E2; try discriminate.
+    intro H; inversion H; subst. eapply resolve_in_find; eauto.
 Qed.
 
 Lemma resolve_direct_find : forall fs r b p f, resolve_direct fs r b p = Some f -> exists m, find_file fs f = Some m.
 Proof.
   unfold resolve_direct; intros fs r b p f.
-  destruct (resolve_in fs b p) eqn:E1.
-  - intro H; inversion H; subst. eapply resolve_in_find; eauto.
-  - destruct (key_eqb b r); [discriminate|]. apply resolve_in_find.
+  destruct (lookup p (hints fs)) as [ex|]; [| apply search_find].
+  destruct (follow fs b ex) as [c|]; [| apply search_find].
+  destruct (try_path fs b c) eqn:Et; [| discriminate | apply search_find].
+  intro H; inversion H; subst. eapply try_path_find; eauto.
 Qed.
 
 Lemma resolve_fb_shape : forall fs r b p f a s, resolve_fb fs r b p = Some (f, a, s) ->
@@ -79,7 +97,7 @@ Proof.
   unfold has_key; intros A k k' v l H. cbn. destruct (key_eqb k k'); [discriminate | exact H].
 Qed.
 
-Definition all_files (fs : fsys) : list fpath := map fst fs.
+Definition all_files (fs : fsys) : list fpath := map fst (files fs).
 
 Record dinv (fs : fsys) (st : lstate) : Prop := {
   d_nodup : NoDup (stack st);
